@@ -6,7 +6,7 @@ CONSTANTS
   Active <- AllTx
   Lists <- ListsAll
   Acts <- AllActs
-  MaxSteps = 14
+  MaxSteps = 12
   KeyMode = "full"
 INIT Init
 NEXT Next
